@@ -79,6 +79,17 @@ def spec_strategy(methods=('nla', 'chic'), max_contigs=6, max_mols=14, extras=Tr
             mols.append({'tid': tid, 'site': site, 'rev': False, 'cell': cell, 'umi': pool[3 % len(pool)], 'copies': [dict(long_), dict(short)]})
             mols.append({'tid': tid, 'site': site + 5000 + draw(st.integers(8, 95)), 'rev': False, 'cell': draw(st.integers(0, ncell - 1)),
                          'umi': draw(st.sampled_from(pool)), 'copies': [dict(short)]})
+        live = [i for i in range(nc) if i not in empty]
+        if live and len(pool) >= 3 and draw(st.integers(0, 5)) == 0:
+            # three molecules of one cell at one cut whose UMIs form a chain: the first and the second are 2 apart, the third
+            # (arriving last) is within 1 of both - under UMI distance 1 it is compatible with two buffered molecules
+            tid = draw(st.sampled_from(live))
+            site = draw(st.integers(60, max(61, contigs[tid][1] - 140)))
+            cell = draw(st.integers(0, ncell - 1))
+            rev = draw(st.booleans())
+            one = {'r1len': 30, 'r2': 'mapped', 'gap': 10, 'r2len': 25, 'clip': 0, 'lane': 1}
+            for u in (pool[0], pool[2], pool[1]):
+                mols.append({'tid': tid, 'site': site, 'rev': rev, 'cell': cell, 'umi': u, 'copies': [dict(one)]})
         ex = []
         if extras:
             kinds = ['unmapped_pair', 'unmapped_pair', 'r1_mapped_r2_unmapped', 'r1_unmapped_r2_mapped', 'orphan_r1',
